@@ -747,12 +747,14 @@ def verify_case(T, case, timeout_ms=None, want=None, exclude=None):
         ob.queries = max(ob.queries, 1)
     out.extend(declared.values())
 
-    # ---- frame
-    if want("frame"):
-        ob_fr = mkob("frame", "frame")
-        for p in paths:
-            if any(n[0] == "frame-write" for n in p.notes) and ob_fr.status == "discharged":
-                _check_infeasible(ob_fr, p, mk, timeout_ms, "write to argument buffer %s" % [n[1] for n in p.notes if n[0] == "frame-write"])
+    # ---- frame, and other obligations read off the notes of a path
+    for short, note_kind, what in (("frame", "frame-write", "write to argument buffer"), ("carrier-opaque", "carrier-leak", "operation on the raw input carrier other than the normalisation")):
+        if not want(short):
+            continue
+        ob_fr = mkob(short, "frame")
+        for p in _each(paths):
+            if any(n[0] == note_kind for n in p.notes) and ob_fr.status == "discharged":
+                _check_infeasible(ob_fr, p, mk, timeout_ms, "%s %s" % (what, sorted({str(n[1]) for n in p.notes if n[0] == note_kind})))
         ob_fr.queries = max(ob_fr.queries, 1)
         out.append(ob_fr)
 
